@@ -13,7 +13,7 @@ use std::future::Future;
 use std::io;
 use std::net::{IpAddr, Ipv4Addr, Ipv6Addr, SocketAddr};
 use std::pin::Pin;
-use std::sync::{Arc, Mutex};
+use std::sync::Mutex;
 use std::task::{Context, Poll, Waker};
 use std::time::Duration;
 
@@ -25,6 +25,8 @@ pub use tokio::net::ToSocketAddrs;
 #[derive(Clone, Debug)]
 pub struct Config {
     pub seed: u64,
+    /// SystemTime::now() at the start of the run, seconds since the epoch
+    pub epoch_secs: u64,
     pub latency_min_us: u64,
     pub latency_max_us: u64,
     pub rx_capacity: usize,
@@ -34,7 +36,7 @@ pub struct Config {
 
 impl Default for Config {
     fn default() -> Self {
-        Config { seed: 1, latency_min_us: 50, latency_max_us: 200, rx_capacity: 256 * 1024, short_read_permille: 0, default_seg: Seg::Whole }
+        Config { seed: 1, epoch_secs: 1_700_000_000, latency_min_us: 50, latency_max_us: 200, rx_capacity: 256 * 1024, short_read_permille: 0, default_seg: Seg::Whole }
     }
 }
 
@@ -68,6 +70,7 @@ struct ListenerState {
 }
 
 struct Net {
+    t0: Instant,
     cfg: Config,
     rng: Rng,
     listeners: BTreeMap<SocketAddr, ListenerState>,
@@ -89,7 +92,13 @@ fn with_net<R>(f: impl FnOnce(&mut Net) -> R) -> io::Result<R> {
 /// Start a fresh simulated network (call inside the runtime, before the code under test).
 pub fn reset(cfg: Config) {
     let rng = Rng::new(cfg.seed);
-    *NET.lock().unwrap_or_else(|e| e.into_inner()) = Some(Net { cfg, rng, listeners: BTreeMap::new(), eps: Vec::new(), next_port: 40_000, counters: BTreeMap::new() });
+    *NET.lock().unwrap_or_else(|e| e.into_inner()) = Some(Net { t0: Instant::now(), cfg, rng, listeners: BTreeMap::new(), eps: Vec::new(), next_port: 40_000, counters: BTreeMap::new() });
+}
+
+/// Virtual wall clock of the active tokio simulation (nanoseconds since the epoch).
+pub fn wall_ns() -> Option<u128> {
+    let g = NET.lock().unwrap_or_else(|e| e.into_inner());
+    g.as_ref().map(|n| n.cfg.epoch_secs as u128 * 1_000_000_000 + n.t0.elapsed().as_nanos())
 }
 
 /// End the simulation: drop all state, return the counters.
